@@ -11,3 +11,10 @@ func NewForkInfo() (r *ForkInfo)
   ensures  no-fork: !r.IsDetected && r.Nonce == 18446744073709551615 && r.Round == 18446744073709551615 && len(r.Hash) == 0
   assigns  nothing
 @*/
+
+/*@
+// ---- C23 (agent O): trace-logging helper called at the start of ProcessTransaction; it only reads and logs -------------------
+func DisplayProcessTxDetails(message string, accountHandler vmcommon.AccountHandler, txHandler data.TransactionHandler, addressPubkeyConverter core.PubkeyConverter)
+  trusted
+  assigns nothing
+@*/
